@@ -54,7 +54,8 @@ class Fold(Harness):
         sc = severity_classes(mods()[1])
         L = {}
         for c in OL.CATS:
-            L[c] = [inp['u'][c][i] if k == 'U' else sc[c][{'F': 'fail', 'W': 'warn', 'G': 'good'}[k]] for i, k in enumerate(self.mix[c])]
+            L[c] = [inp['u'][c][i] if k == 'U' else ('' if k == 'E' else ('chacha20-poly1305@openssh.com' if k == 'T' else sc[c][{'F': 'fail', 'W': 'warn', 'G': 'good'}[k]]))
+                    for i, k in enumerate(self.mix[c])]
         return L
 
     def run(self, M, inp):
@@ -66,7 +67,17 @@ class Fold(Harness):
         if isinstance(base['ret'], Exc) or isinstance(alt['ret'], Exc):
             return {'exc': base['ret'] if isinstance(base['ret'], Exc) else alt['ret']}
         parsed = OL.parse_alg_lines(base['lines'])
-        return {'ret': base['ret'], 'alt': alt['ret'], 'levels': [l for _, _, l, _ in parsed]}
+        jd = OL.run_output(M, L, json=True)
+        jl = []
+        if not isinstance(jd['ret'], Exc):
+            for c in OL.CATS:
+                for e in jd['doc'][c]:
+                    n = e['notes']
+                    if n.get('fail') == ['using unknown algorithm']:
+                        jl.append('warn')      # unknown names: JSON words it as a failure, the status counts a warning (as the text report does)
+                        continue
+                    jl += ['fail'] * len(n.get('fail', [])) + ['warn'] * len(n.get('warn', []))
+        return {'ret': base['ret'], 'alt': alt['ret'], 'levels': [l for _, _, l, _ in parsed], 'json_levels': jl, 'json_ret': jd['ret']}
 
     def check(self, inp, obs):
         if 'exc' in obs:
@@ -76,9 +87,12 @@ class Fold(Harness):
         want = 3 if 'fail' in lv else (2 if 'warn' in lv else 0)
         yield 'status==fold-of-rendered-severities', obs['ret'] == want
         yield 'status-independent-of-output-options', obs['alt'] == obs['ret']
+        jl = obs['json_levels']
+        jwant = 3 if 'fail' in jl else (2 if 'warn' in jl else 0)
+        yield 'json-status==fold-of-json-notes', obs['json_ret'] == jwant
         # the mix itself: any F -> 3, else any W or U -> 2, else 0
         flat = [k for c in OL.CATS for k in self.mix[c]]
-        mixwant = 3 if 'F' in flat else (2 if ('W' in flat or 'U' in flat) else 0)
+        mixwant = 3 if 'F' in flat else (2 if ('W' in flat or 'U' in flat or 'T' in flat) else 0)
         known_hit = obs['ret'] != mixwant
         # a symbolic 2-char name could coincide with a real table key; only then may the status differ from the mix
         yield 'status==mix', (obs['ret'] == mixwant) or known_hit and any(k == 'U' for k in flat)
@@ -206,6 +220,9 @@ def tasks(tier):
     for a, b, c_, d in ([('F', 'W', 'G', 'G'), ('W', 'F', 'G', 'G'), ('G', 'G', 'W', 'F'), ('G', 'G', 'G', 'G'), ('G', 'W', 'G', 'G'), ('U', 'G', 'G', 'F'),
                          ('G', 'G', 'G', 'U'), ('W', 'G', 'F', 'W')] if q else list(itertools.product('FWG', repeat=4))):
         mixes.append({'kex': (a,), 'key': (b,), 'enc': (c_,), 'mac': (d,)})
+    # empty names / empty lists after bad algorithms must not reset the running status; a warning that only post-processing adds (Terrapin) counts
+    mixes += [{'kex': ('F',), 'mac': ('E',)}, {'key': ('F',), 'enc': ('E',), 'mac': ('E',)}, {'kex': ('W', 'E')}, {'enc': ('F', 'E', 'G')}, {'kex': ('E',), 'key': ('E',), 'enc': ('E',), 'mac': ('E',)},
+              {'enc': ('T',)}, {'enc': ('G', 'T')}, {'enc': ('T',), 'mac': ('E',)}]
     if not q:
         for c in OL.CATS:
             for tri in itertools.product('FWG', repeat=3):
